@@ -99,6 +99,7 @@ Record gstate := mkGS { gs_ram : gram; gs_kv : option N; gs_pend : option (N * N
 Definition g_init (kv : option N) : gstate := mkGS (g_load kv) kv None.
 
 Inductive gop :=
+| GSync (rand : N)        (* MsgCounterSyncRsp: get_or_init_global_group_data_ctr reports the counter *)
 | GReserve (rand : N)     (* initiate_group up to the store (or to its end if no store is due) *)
 | GStore (ok : bool)      (* the store inside initiate_group succeeds / fails; the call ends *)
 | GCrash.                 (* restart *)
@@ -108,6 +109,7 @@ Inductive gop :=
     repair. *)
 Definition g_step (rb : bool) (s : gstate) (op : gop) : gstate * cev :=
   match op with
+  | GSync r => (mkGS (g_get_or_init (gs_ram s) r) (gs_kv s) (gs_pend s), EvDone)
   | GReserve r =>
       match gs_pend s with
       | Some _ => (s, EvNop)
